@@ -71,5 +71,14 @@ CHECKS = {
         "ref": "DESIGN.md §3 C20", "note": TB,
         "technique": "explicit-state model checking of API-call histories plus exhaustive input-universe enumeration",
     },
+    "C14": {
+        "text": "Explicit-state search over the real API with the full alphabet (attractor queries on any node incl. stubs, every "
+                "expansion strategy, skipping, source shortcuts, SCC attachment, reclaim, pickle, build): all histories up to "
+                "depth 2 (quick) / 3 (thorough) plus all query.structural.query histories on kernel and 2-variable networks, and "
+                "all [stub query].[structural op] histories on 3-variable shards; in every reached state every node's cached "
+                "seeds/candidates/sets are judged against the reference attractors of the node minus its current successors.",
+        "ref": "DESIGN.md §3 C14", "note": TB + " Defaults except minimum_simulation_budget=1 to keep replays cheap.",
+        "technique": "explicit-state model checking of API-call histories (depth-bounded BFS with canonical state hashing) on the real implementation",
+    },
 }
 NOT_CLAIMED = {f"C{i:02d}": "not claimed yet: check under construction (see DESIGN.md §9 for the build order)" for i in range(1, 21)}
